@@ -141,8 +141,8 @@ var props = map[string]*propCfg{
 		ID: "C06", Level: "model_checking", Exhaustive: true,
 		Rule:        "TLC enumerates (a) SELECT DISTINCT over every table of <= MaxRows rows from a pool of 7 rows whose textual fingerprints coincide although the rows differ ({a:'x b:y'} / {a:'x',b:'y'}, 1 / '1', missing / NULL) x 4 select lists x 3 windows; (b) two-branch unions over every pair of tables of <= MaxBranch rows x {UNION, UNION ALL} x 4 windows x {plain, filtered right branch}; (c) three-branch chains over every triple of tables x all four UNION / UNION ALL mixes x 2 windows. Each case is replayed and the exact row sequence compared. Leg T: seeded random 1-4 branch chains over tables of 0-6 rows, DISTINCT branches, LIMIT/OFFSET. Non-trivial: the un-deduplicated result contains a duplicate row; distinct = distinct (document, query) pairs. Round 4: the largest counts behind an offset on unions; rows reaching one array / object by two routes under DISTINCT.",
 		Assumptions: baseAssumptions,
-		Quick:       []legCfg{mc("distinct", "MC_C06", "C06_quick.cfg", 10*time.Minute), tr("distinct", "EngineTrace", 300, 4), mix(200, 3)},
-		Thorough:    []legCfg{mc("distinct", "MC_C06", "C06_thorough.cfg", 40*time.Minute), tr("distinct", "EngineTrace", 2000, 12), mix(1500, 12)},
+		Quick:       []legCfg{mc("distinct", "MC_C06", "C06_quick.cfg", 10*time.Minute), tr("distinct", "EngineTrace", 300, 4), mix(200, 3), {Kind: "exec", Name: "volume", Mode: "volume", Timeout: 20 * time.Minute}},
+		Thorough:    []legCfg{mc("distinct", "MC_C06", "C06_thorough.cfg", 40*time.Minute), tr("distinct", "EngineTrace", 2000, 12), mix(1500, 12), {Kind: "exec", Name: "volume", Mode: "volume", Timeout: 20 * time.Minute}},
 	},
 	"C15": {
 		ID: "C15", Level: "model_checking", Exhaustive: true,
@@ -225,8 +225,8 @@ var props = map[string]*propCfg{
 		ID: "C04", Level: "model_checking", Exhaustive: true,
 		Rule:        "TLC enumerates every pair of tables of 0..MaxRows rows (quick: <= 1 row per side with all 50 ON expressions and <= 2 rows with a core of 7; thorough: <= 2 rows with all 50 and <= 3 rows with the core) (two join columns per side - a number and a string - whose names sort differently on the two sides, duplicate keys, with Wide strings containing the key-text separator, with Big the numeric keys 2^24 and 2^24 + 1; Many: two pairs of fixed long tables with 37 / 40 against 35 / 33 partly overlapping keys) x 50 ON expressions (every comparison operator in both orientations on the numeric pair, =, !=, < on the string pair, AND / OR of two comparisons in either order and orientation, one column compared twice) x {INNER, LEFT, RIGHT}, and checks that the operational models of the hash join and of the nested loop (Joins.tla) are bag-equal to the textbook join for every strategy Join.Exec can choose. Each case is executed under every spelling of the strategy (JOIN, INNER JOIN, HASH_JOIN, STRAIGHT_JOIN, PARALLEL JOIN, PARALLEL HASH_JOIN, PARALLEL STRAIGHT_JOIN; LEFT / RIGHT x {JOIN, HASH_JOIN, PARALLEL JOIN, PARALLEL HASH_JOIN}; PARALLEL ones three times; every run once more with the left side's numeric keys held as Go ints against float64 on the right - and every other right row an int as well, so that one side holds the same number under two Go types) and the result compared as a multiset with the exported textbook result. Non-trivial: non-empty join result; distinct = distinct (tables, ON, type). Round 4: every case also with the aliases renamed to t / t2, t2 / t, orders / ord; driver volume instantiates HashCore on two tables of 560 000 (thorough 1 100 000) rows with pairwise distinct keys per side (closed-form result: one pair per common key, plus one NULL-extended row per other left key in a left join) with float64, int and (thorough) string keys.",
 		Assumptions: baseAssumptions,
-		Quick:       []legCfg{mc("allons", "MC_C04", "C04_quick.cfg", 15*time.Minute), mc("rows2", "MC_C04", "C04_quick2.cfg", 15*time.Minute), mc("wide", "MC_C04", "C04_wide.cfg", 15*time.Minute), mc("big2", "MC_C04", "C04_big2.cfg", 15*time.Minute), mc("many", "MC_C04", "C04_many.cfg", 15*time.Minute), tr("joins", "EngineTrace", 250, 4), {Kind: "exec", Name: "volume", Mode: "volume", Timeout: 20 * time.Minute}},
-		Thorough:    []legCfg{mc("joins", "MC_C04", "C04_full2.cfg", 30*time.Minute), mc("wide", "MC_C04", "C04_wide.cfg", 15*time.Minute), mc("big", "MC_C04", "C04_big.cfg", 15*time.Minute), mc("big2", "MC_C04", "C04_big2.cfg", 15*time.Minute), mc("many", "MC_C04", "C04_many.cfg", 15*time.Minute), mc("rows3", "MC_C04", "C04_thorough.cfg", 90*time.Minute), tr("joins", "EngineTrace", 1500, 12), {Kind: "exec", Name: "volume", Mode: "volume", Timeout: 20 * time.Minute}},
+		Quick:       []legCfg{mc("allons", "MC_C04", "C04_quick.cfg", 15*time.Minute), mc("rows2", "MC_C04", "C04_quick2.cfg", 15*time.Minute), mc("wide", "MC_C04", "C04_wide.cfg", 15*time.Minute), mc("big2", "MC_C04", "C04_big2.cfg", 15*time.Minute), mc("many", "MC_C04", "C04_many.cfg", 15*time.Minute), tr("joins", "EngineTrace", 250, 4), {Kind: "exec", Name: "volume", Mode: "volume", Timeout: 20 * time.Minute}, {Kind: "exec", Name: "keytext", Mode: "keytext", Timeout: 10 * time.Minute}},
+		Thorough:    []legCfg{mc("joins", "MC_C04", "C04_full2.cfg", 30*time.Minute), mc("wide", "MC_C04", "C04_wide.cfg", 15*time.Minute), mc("big", "MC_C04", "C04_big.cfg", 15*time.Minute), mc("big2", "MC_C04", "C04_big2.cfg", 15*time.Minute), mc("many", "MC_C04", "C04_many.cfg", 15*time.Minute), mc("rows3", "MC_C04", "C04_thorough.cfg", 90*time.Minute), tr("joins", "EngineTrace", 1500, 12), {Kind: "exec", Name: "volume", Mode: "volume", Timeout: 20 * time.Minute}, {Kind: "exec", Name: "keytext", Mode: "keytext", Timeout: 10 * time.Minute}},
 	},
 	"C14": {
 		ID: "C14", Level: "model_checking", Exhaustive: true,
